@@ -2,6 +2,8 @@
    InterpRefine.v (iterative = recursive), InterpSound.v (recursive form sound, traces exact)
    and InterpComplete.v (table satisfactions accepted). *)
 From Verif Require Import Exec ExecTrace Ser Ast Types TypeCheck ExecLemmas TheoremA SatSpec InterpModel InterpRefine InterpSound InterpWitness InterpComplete.
+From Verif Require Import ScriptNumProofs DenotSpec DenotMain InterpDenot.
+From Verif Require ValidateModel.
 From Coq Require Import Lia.
 Local Open Scope N_scope.
 
@@ -11,6 +13,16 @@ Definition num_facts : Prop :=
   (forall z, (0 <= z < 2147483648)%Z -> num_operand 5 (num_encode z) = Some z) /\
   (forall z, (0 < z < 2147483648)%Z -> truthy (num_encode z) = true) /\
   (forall v z, num_operand 4 v = Some z -> truthy v = negb (z =? 0)%Z).
+
+(* ... which are theorems (Proofs/ScriptNumProofs.v) *)
+Lemma num_facts_hold : num_facts.
+Proof.
+  split; [|split; [|split]].
+  - intros z Hz. apply num_roundtrip; [lia | exact Hz].
+  - intros z Hz. apply num_roundtrip; [lia | exact Hz].
+  - exact num_truthy.
+  - intros v z H. exact (num_truthy_iff 4 v z H).
+Qed.
 
 (* what the theorem needs to know about keys and signatures: the script's keys are acceptable
    encodings for the signature version, a pushed key the interpreter manages to parse is one as
@@ -23,13 +35,13 @@ Definition items_small (items : list bytes) : Prop := Forall (fun b => blen b < 
 
 (* interp_sound: no hypothesis about lock time, sequence or version *)
 Lemma interp_sound_env (e : env) (ke : keyenv) (kp : bytes -> bool) :
-  num_facts -> keys_ok e ke kp ->
+  keys_ok e ke kp ->
   forall (m : ms) (t : ty) (items : list bytes) (cs : list constr),
     type_of m = ROk t -> c_base (t_corr t) = BB -> iwf e m -> icover m -> items_small items ->
     interp e ke kp m (astack_of_items items) = IAccept cs ->
     accepts e (enc ke m) (rev items) = true.
 Proof.
-  intros [H1 [H2 [H3 H4]]] [Hk1 [Hk2 Hk3]] m t items cs Ht Hb Hwf Hc Hsz H.
+  destruct num_facts_hold as [H1 [H2 [H3 H4]]]. intros [Hk1 [Hk2 Hk3]] m t items cs Ht Hb Hwf Hc Hsz H.
   rewrite interp_eq_rec in H.
   exact (interp_rec_sound e ke kp H1 H2 H3 H4 Hk1 Hk2 Hk3 m t items cs Ht Hb Hwf Hc Hsz H).
 Qed.
@@ -37,13 +49,13 @@ Qed.
 (* constraints_exact: the instrumented execution of the encoded script accepts and the checks of
    the executed path are exactly the reported constraints, in order *)
 Lemma interp_exact_env (e : env) (ke : keyenv) (kp : bytes -> bool) :
-  num_facts -> keys_ok e ke kp ->
+  keys_ok e ke kp ->
   forall (m : ms) (t : ty) (items : list bytes) (cs : list constr),
     type_of m = ROk t -> c_base (t_corr t) = BB -> iwf e m -> icover m -> items_small items ->
     interp e ke kp m (astack_of_items items) = IAccept cs ->
     accepts_tr e (enc ke m) (rev items) = Some (map check_of cs).
 Proof.
-  intros [H1 [H2 [H3 H4]]] [Hk1 [Hk2 Hk3]] m t items cs Ht Hb Hwf Hc Hsz H.
+  destruct num_facts_hold as [H1 [H2 [H3 H4]]]. intros [Hk1 [Hk2 Hk3]] m t items cs Ht Hb Hwf Hc Hsz H.
   rewrite interp_eq_rec in H.
   exact (interp_rec_exact e ke kp H1 H2 H3 H4 Hk1 Hk2 Hk3 m t items cs Ht Hb Hwf Hc Hsz H).
 Qed.
@@ -55,12 +67,12 @@ Definition assets_fit (e : env) (ke : keyenv) (kp : bytes -> bool) (A : assets) 
   (forall kbs, e_sigok e kbs [] = false).
 
 Lemma interp_complete_sat (e : env) (ke : keyenv) (kp : bytes -> bool) (A : assets) :
-  num_facts -> assets_fit e ke kp A ->
+  assets_fit e ke kp A ->
   forall (m : ms) (t : ty) (w : wit),
     type_of m = ROk t -> c_base (t_corr t) = BB -> wf e ke m -> ccover m ->
     In w (all_sat ke A m) -> exists cs, interp e ke kp m (astack_of_items (rev w)) = IAccept cs.
 Proof.
-  intros [H1 [H2 [H3 H4]]] [HA [Hs1 [Hk1 [Hkp Hse]]]] m t w.
+  destruct num_facts_hold as [H1 [H2 [H3 H4]]]. intros [HA [Hs1 [Hk1 [Hkp Hse]]]] m t w.
   exact (interp_complete_table e ke kp A H1 H2 H3 H4 Hse HA Hs1 Hk1 Hkp m t w).
 Qed.
 
@@ -76,3 +88,139 @@ Proof.
   split; [exact m_after_typed|]. split; [cbn; lia|]. split; [cbn; tauto|].
   split; [repeat constructor|]. vm_compute. reflexivity.
 Qed.
+
+(* ------------------------------------------------------------------ round 3: against the exact
+   semantics of the script (Theorem B, Ms/DenotSpec.v) *)
+
+(* the well-formedness of the specification implies the one the interpreter theorems use *)
+Lemma wf_iwf (e : env) (ke : keyenv) : forall m, wf e ke m -> iwf e m.
+Proof.
+  induction m using ms_ind'; cbn [wf iwf]; try tauto.
+  - intros [Hk [Hn Hw]]. split; [exact Hk|]. split; [exact Hn|].
+    clear Hk Hn. induction H as [|x r Hx Hr IHr]; [exact I|]. destruct Hw as [Hw1 Hw2]. split; [apply Hx, Hw1 | apply IHr, Hw2].
+  - intros [Hk [Hn [Ht _]]]. unfold tap in Ht. split; [|split; assumption].
+    intros E. rewrite E in Ht. discriminate.
+  - intros [Hk [Hn [Ht _]]]. unfold tap in Ht. split; [|split; assumption].
+    destruct (e_sv e); try discriminate; reflexivity.
+Qed.
+
+(* what the iff needs to know about keys and signatures:
+     the script's keys are acceptable encodings for the signature version;
+     the interpreter's key parser accepts exactly the acceptable encodings;
+     an acceptable key is neither empty nor the byte 01, and neither the empty string nor the byte
+     01 is a valid signature (the interpreter reads both as booleans -- Element::from) *)
+Definition env_fit (e : env) (ke : keyenv) (kp : bytes -> bool) : Prop :=
+  (forall k, e_keyok e (kb ke k) = true) /\
+  (forall b, kp b = true <-> e_keyok e b = true) /\
+  (forall b, e_keyok e b = true -> b <> [] /\ b <> [1]) /\
+  (forall k, e_sigok e k [] = false) /\ (forall k, e_sigok e k [1] = false).
+
+Lemma env_fit_keys_ok e ke kp : env_fit e ke kp -> keys_ok e ke kp.
+Proof. intros [H1 [H2 [_ [H4 _]]]]. split; [exact H1|]. split; [intros b Hb; apply H2, Hb | exact H4]. Qed.
+
+(* interp_complete against the script: every stack the encoded script accepts *)
+Lemma interp_complete_env (e : env) (ke : keyenv) (kp : bytes -> bool) :
+  env_fit e ke kp ->
+  forall (m : ms) (t : ty) (w : wit),
+    type_of m = ROk t -> c_base (t_corr t) = BB -> wf e ke m -> icover m -> isel e m ->
+    accepts e (enc ke m) w = true -> exists cs, interp e ke kp m (astack_of_items (rev w)) = IAccept cs.
+Proof.
+  intros [H1 [H2 [H3 [H4 H5]]]] m t w.
+  apply (interp_complete_script e ke kp); try assumption.
+  intros b Hb. split; [apply H2, Hb | apply H3, Hb].
+Qed.
+
+(* the same for dissatisfactions and every intermediate result: whatever the relation [R] of
+   Theorem B contains, the evaluator computes -- stated on whole witnesses of the satisfied kind *)
+Lemma interp_complete_Rsat (e : env) (ke : keyenv) (kp : bytes -> bool) :
+  env_fit e ke kp ->
+  forall (m : ms) (t : ty) (w : wit),
+    type_of m = ROk t -> c_base (t_corr t) = BB -> wf e ke m -> icover m -> isel e m ->
+    Rsat e ke m w -> exists cs, interp e ke kp m (astack_of_items (rev w)) = IAccept cs.
+Proof.
+  intros [H1 [H2 [H3 [H4 H5]]]] m t w.
+  apply (interp_complete_R e ke kp); try assumption.
+  intros b Hb. split; [apply H2, Hb | apply H3, Hb].
+Qed.
+
+(* soundness and completeness together *)
+Lemma interp_iff_env (e : env) (ke : keyenv) (kp : bytes -> bool) :
+  env_fit e ke kp ->
+  forall (m : ms) (t : ty) (items : list bytes),
+    type_of m = ROk t -> c_base (t_corr t) = BB -> wf e ke m -> icover m -> isel e m -> items_small items ->
+    ((exists cs, interp e ke kp m (astack_of_items items) = IAccept cs) <-> accepts e (enc ke m) (rev items) = true).
+Proof.
+  intros Hfit m t items Ht Hb Hwf Hc Hsl Hsz. split.
+  - intros [cs H].
+    exact (interp_sound_env e ke kp (env_fit_keys_ok _ _ _ Hfit) m t items cs Ht Hb (wf_iwf e ke m Hwf) Hc Hsz H).
+  - intros H. rewrite <- (rev_involutive items).
+    exact (interp_complete_env e ke kp Hfit m t (rev items) Ht Hb Hwf Hc Hsl H).
+Qed.
+
+(* ... and the constraints reported on an accepted stack are the checks of that execution *)
+Lemma interp_iff_exact_env (e : env) (ke : keyenv) (kp : bytes -> bool) :
+  env_fit e ke kp ->
+  forall (m : ms) (t : ty) (items : list bytes),
+    type_of m = ROk t -> c_base (t_corr t) = BB -> wf e ke m -> icover m -> isel e m -> items_small items ->
+    accepts e (enc ke m) (rev items) = true ->
+    exists cs, interp e ke kp m (astack_of_items items) = IAccept cs /\
+               accepts_tr e (enc ke m) (rev items) = Some (map check_of cs).
+Proof.
+  intros Hfit m t items Ht Hb Hwf Hc Hsl Hsz H.
+  destruct (proj2 (interp_iff_env e ke kp Hfit m t items Ht Hb Hwf Hc Hsl Hsz) H) as [cs Hcs].
+  exists cs. split; [exact Hcs|].
+  exact (interp_exact_env e ke kp (env_fit_keys_ok _ _ _ Hfit) m t items cs Ht Hb (wf_iwf e ke m Hwf) Hc Hsz Hcs).
+Qed.
+
+Lemma fit_env_fit sv l s v : env_fit (fit_env sv l s v) toy_ke shape_key.
+Proof.
+  split; [intros k; reflexivity|]. split; [intros b; cbn; tauto|].
+  split; [intros b Hb; split; intros ->; discriminate|]. split; intros k; reflexivity.
+Qed.
+
+(* the hypothesis [isel] of interp_complete is needed: under the base signature version (a P2SH
+   output, sh(or_i(pk(A),pk(B)))) every other hypothesis holds, the script accepts the stack
+   <sig> 02, and the interpreter rejects it *)
+Lemma interp_complete_base_selector_refuted :
+  exists (e : env) (ke : keyenv) (kp : bytes -> bool) (m : ms) (t : ty) (w : wit),
+    env_fit e ke kp /\ type_of m = ROk t /\ c_base (t_corr t) = BB /\ wf e ke m /\ icover m /\
+    items_small (rev w) /\ e_sv e = SvBase /\
+    accepts e (enc ke m) w = true /\
+    forall cs, interp e ke kp m (astack_of_items (rev w)) <> IAccept cs.
+Proof.
+  destruct m_ori_typed as [t [Ht Hb]].
+  exists (fit_env SvBase 0 0 2), toy_ke, shape_key, m_ori, t, [[2]; toy_sig].
+  split; [apply fit_env_fit|]. split; [exact Ht|]. split; [exact Hb|]. split; [cbn; tauto|]. split; [cbn; tauto|].
+  split; [repeat constructor|]. split; [reflexivity|].
+  destruct base_selector_witness as [Ha _]. split; [exact Ha|].
+  intros cs Hc. vm_compute in Hc. discriminate.
+Qed.
+
+(* non-vacuity of the iff: all hypotheses hold and both sides are true, on a satisfaction that is
+   NOT in the specification's table (or_b with both sides satisfied) *)
+Lemma iff_nonvacuous :
+  exists (e : env) (ke : keyenv) (kp : bytes -> bool) (m : ms) (t : ty) (items : list bytes),
+    env_fit e ke kp /\ type_of m = ROk t /\ c_base (t_corr t) = BB /\ wf e ke m /\ icover m /\ isel e m /\
+    items_small items /\ accepts e (enc ke m) (rev items) = true /\
+    interp e ke kp m (astack_of_items items) = IAccept [CsPk [2; 0] toy_sig; CsPk [2; 1] toy_sig].
+Proof.
+  destruct m_orb_typed as [t [Ht Hb]].
+  exists (fit_env SvWitnessV0 0 0 2), toy_ke, shape_key, m_orb, t, [toy_sig; toy_sig].
+  split; [apply fit_env_fit|]. split; [exact Ht|]. split; [exact Hb|]. split; [cbn; tauto|]. split; [cbn; tauto|].
+  split; [cbn; tauto|]. split; [repeat constructor|].
+  destruct noncanonical_witness as [Ha [Hi _]]. split; [exact Ha | exact Hi].
+Qed.
+
+(* [isel] is the language rule "no d: / or_i where there is no MINIMALIF" ... *)
+Lemma isel_language_rule (e : env) (m : ms) : isel e m <-> lang_ok (e_sv e) m = true.
+Proof. exact (isel_iff_lang e m). Qed.
+
+(* ... which is what the library's contexts enforce at decoding (model of ValidationParams,
+   Ms/ValidateModel.v): the pre-segwit contexts, and only they, forbid both fragments *)
+Definition ctx_sv (c : ValidateModel.ctx) : sigversion :=
+  match c with ValidateModel.CBare | ValidateModel.CLegacy => SvBase
+             | ValidateModel.CSegwitv0 => SvWitnessV0 | ValidateModel.CTap => SvTapscript end.
+Lemma context_if_rule : forall c,
+  ValidateModel.allow_or_i (ValidateModel.ctx_consensus c) = minimalif (ctx_sv c) /\
+  ValidateModel.allow_dup_if (ValidateModel.ctx_consensus c) = minimalif (ctx_sv c).
+Proof. destruct c; split; reflexivity. Qed.
